@@ -88,7 +88,8 @@ CLAIMED = {
         "the full block contract (length, range within data, r from 0 to n strictly increasing, constant inside and different across blocks; r is determined by the values), monotone fit, "
         "already-monotone input unchanged, idempotence, exact commutation with reversal (exceptions included), positive affine equivariance, weight-scale invariance, None = unit weights, "
         "and integer weights = repeated observations (mean, expectile; values). Tie: skeleton+leaves of pava/gpava/isotonic_regression/quantile_lower/quantile_upper and correspondence over all functionals "
-        "with exact block-vector comparison on the dyadic-exact stream.",
+        "with exact block-vector comparison on the dyadic-exact stream. Additionally a bit-exact binary64 twin of the mean path (model/PavaFloat.v, Coq primitive floats) satisfies the block contract for EVERY float input "
+        "(NaN, infinities, overflow included) and is compared bit for bit with the implementation.",
    note="Partial: 'inputs are never modified' is observed (byte comparison of the caller's arrays around every call), not proved; replication is proved for the values only. Equalities of values are Qeq. "
         "All theorems are closed under the global context except replication (standard real-number axioms).",
    technique="Coq proof (certificate invariant, lock-step simulation for equivariances, uniqueness for replication) + skeleton/leaf translation + vm_compute correspondence", ref="4 C12"),
@@ -140,7 +141,8 @@ CLAIMED = {
         "for every non-empty rational y, every strictly positive w (or none), both directions: totality, monotonicity, optimality against all REAL "
         "monotone competitors with the Pythagorean gap, uniqueness, preservation of weighted totals. Tie to source: skeleton match + translated leaves "
         "of pava/isotonic_regression with bridge lemmas, and a correspondence run (model evaluated by vm_compute vs the real function).",
-   note="Exact arithmetic (Q, transported to R); float rounding not modelled (1e-9 relative tolerance in the comparator; block vectors compared exactly on the dyadic-exact stream). "
+   note="Exact arithmetic (Q, transported to R); optimality is not proved about rounded arithmetic (1e-9 relative tolerance in the comparator of the rational model; block vectors compared exactly on the dyadic-exact stream). "
+        "A bit-exact binary64 twin of the mean PAVA (model/PavaFloat.v, Coq primitive floats) is compared with the implementation bit for bit and proved equal to the rational model on every run whose operations are all exact. "
         "The max-min formula is proved too (both directions, quantified form and executable fold). Axioms: only the standard library's real-number axioms.",
    technique="Coq proof (GPAVA certificate invariant + optimality from certificate) + skeleton/leaf translation + vm_compute correspondence", ref="4 C01"),
  "C02": dict(
